@@ -42,6 +42,39 @@ pub struct Sizes {
 }
 
 impl Sizes {
+    /// The sizes of a medium case.  `t` is the threshold the case aims at (17 .. 260: just above
+    /// the sizes at which implementations tend to change behaviour - inline buffers of 16 / 32 /
+    /// 64 elements, 64-bit masks, u8 counters, blocked loops of 256) and `profile` says which
+    /// dimension is blown up to it while the others stay small.
+    pub fn medium(&self, t: usize, profile: usize) -> Sizes {
+        let mut s = *self;
+        match profile {
+            0 => {
+                s.nodes = t;
+                s.edges = t;
+                s.arity = self.arity + 1;
+                s.boundary = self.boundary * 2;
+            }
+            1 => {
+                s.nodes = t;
+                s.arity = t;
+            }
+            2 => {
+                s.nodes = t;
+                s.boundary = t;
+            }
+            3 => s.edges = t,
+            4 => s.nodes = t,
+            _ => {
+                s.nodes = self.nodes * 8;
+                s.edges = self.edges * 8;
+                s.arity = self.arity + 3;
+                s.boundary = self.boundary * 5;
+            }
+        }
+        s.steps = self.steps * 4;
+        s
+    }
     pub fn of(tier: Tier) -> Sizes {
         match tier {
             Tier::Quick => Sizes {
@@ -80,6 +113,12 @@ pub type CheckResult = Result<(), Violation>;
 pub struct Ctx {
     pub tier: Tier,
     pub sizes: Sizes,
+    /// this is a medium-size case (see `tape::is_medium`); length parameters that a check derives
+    /// itself go through `mlen()` / `vb()`
+    pub medium: bool,
+    /// threshold and profile of a medium case (see `Sizes::medium`)
+    pub medium_t: usize,
+    pub medium_profile: usize,
     /// true in the release (non overflow-checking) build
     pub release_build: bool,
     pub want_sample: bool,
@@ -98,6 +137,9 @@ impl Ctx {
         Ctx {
             tier,
             sizes: Sizes::of(tier),
+            medium: false,
+            medium_t: 0,
+            medium_profile: 0,
             release_build: !cfg!(debug_assertions),
             want_sample,
             classes: Vec::new(),
@@ -107,6 +149,22 @@ impl Ctx {
             discard: false,
             inconclusive: false,
             dump: String::new(),
+        }
+    }
+    /// length parameter of a check that does not use `sizes`: the threshold in a medium case
+    pub fn mlen(&self, base: usize) -> usize {
+        if self.medium {
+            self.medium_t + 4
+        } else {
+            base
+        }
+    }
+    /// bound on generated *values* (array entries, codomain sizes): raised in half of the medium cases
+    pub fn vb(&self, base: usize) -> usize {
+        if self.medium && self.medium_profile % 2 == 1 {
+            self.medium_t + 3
+        } else {
+            base
         }
     }
     #[inline]
@@ -294,9 +352,20 @@ pub enum CaseOutcome {
 /// run one case; panics inside the library (anywhere below the check) are violations
 /// ("the operation did not return"), panics in harness code are harness errors.
 pub fn run_case(prop: &Prop, words: &[u32], ctx: &mut Ctx) -> CaseOutcome {
-    let mut tape = Tape::new(words);
+    let medium = crate::tape::is_medium(words);
+    let mut tape = if medium {
+        const T: [usize; 8] = [17, 33, 34, 40, 65, 70, 130, 260];
+        ctx.medium = true;
+        ctx.medium_t = T[words.get(1).copied().unwrap_or(0) as usize % 8];
+        ctx.medium_profile = words.get(2).copied().unwrap_or(0) as usize % 6;
+        ctx.sizes = ctx.sizes.medium(ctx.medium_t, ctx.medium_profile);
+        ctx.class("medium-size");
+        Tape::extended(words)
+    } else {
+        Tape::new(words)
+    };
     let r = catch_unwind(AssertUnwindSafe(|| (prop.check)(&mut tape, ctx)));
-    if tape.consumed() > words.len() {
+    if !medium && tape.consumed() > words.len() {
         // the decoder wanted more choices than the tape had: the remainder was built minimally
         ctx.class("tape-exhausted");
     }
